@@ -42,7 +42,7 @@ def frac(x):
 class Sim:
     def __init__(self, scenario):
         self.sc = scenario
-        self.now = Fraction(0)
+        self.now = frac(scenario.get("origin", 0))
         self.horizon = frac(scenario["horizon"])
         self.delta = frac(scenario.get("delta", 0))
         self.queue = []
